@@ -160,7 +160,20 @@ def run_case(res, case):
         msg.sop_class_uid = '1.2.840.10008.5.1.4.1.1.2'
         msg.affected_sop_instance_uid = '1.2.3.4'
         msg.priority = 0
-        msg.data_set = data
+        # the data set comes from memory, from a stream or from a real file (as storage_scu does)
+        source = ('bytes', 'stream', 'file')[(n + local + peer) % 3]
+        if source == 'bytes':
+            msg.data_set = data
+        elif source == 'stream':
+            import io
+            msg.data_set = io.BytesIO(data)
+        else:
+            import tempfile
+            fp = tempfile.TemporaryFile()
+            fp.write(b'\0' * 132 + data)
+            fp.seek(132)
+            msg.data_set = fp
+        where += ' source=' + source
         before = len(stub.sent_messages())
         try:
             asce.send(msg, 1)
